@@ -53,6 +53,10 @@ func EnumCase(path, in string, data interface{}, enum interface{}, caseSensitive
 	for i := 0; i < val.Len(); i++ {
 		ele := val.Index(i)
 		enumValue := ele.Interface()
+		if data == nil && enumValue == nil {
+			// a nil value is a member of an enum that lists nil
+			return nil
+		}
 		if data != nil {
 			if reflect.DeepEqual(data, enumValue) {
 				return nil
